@@ -1,10 +1,47 @@
 /-
 C04 — Static checking accepts exactly the assignable programs.
-Property theorems only; helper lemmas live in XrayProofs/Types.lean.
+Property theorems only.  The model (`XrayModel/Types.lean`) mirrors `src/xtype.rs` and the call/position
+checks of `compilation_scope.rs` / `parser.rs`; the documented relation `Sub s r` ("a value of type `s` may be
+used where `r` is required": identical types, the bottom type into anything, tuples / natives / compounds
+component- and name-wise, function types by exact arity and component types) and the fragments `declarable`
+(what can be written as a type: no `unknown`, no `XFunc`) and `wfTy ar` (every type name used with its number of
+parameters) are defined in `XrayProofs/Types.lean`.
 -/
 import XrayProofs.Types
 namespace XrayModel.C04
 open XrayModel
+
+/-- **accept ⇔ assignable** at the heart of every position: `bind_in_assignment` succeeds with an empty binding
+exactly when the supplied type is assignable to the (written) required type. -/
+theorem bind_empty_iff_assignable (ar : String → Nat) (r s : Ty)
+    (hd : declarable r = true) (hr : wfTy ar r = true) (hs : wfTy ar s = true) :
+    bindIn r s = some [] ↔ Sub s r :=
+  bindIn_nil_iff ar r s hd hr hs
+
+/-- `let v: R = e`, `fn f(..)->R { e }` and `fn f(p: R ?= e)` are accepted exactly when the type of `e` is
+assignable to `R` (generic parameters in scope are opaque there: nothing may be bound). -/
+theorem accept_iff (ar : String → Nat) (pos : Pos) (hp : pos.requiresEmpty = true) (r s : Ty)
+    (hd : declarable r = true) (hr : wfTy ar r = true) (hs : wfTy ar s = true) :
+    accepts pos r s = true ↔ Sub s r := by
+  rw [← bindIn_nil_iff ar r s hd hr hs]
+  cases pos <;> simp [Pos.requiresEmpty] at hp <;> simp only [accepts] <;>
+    (cases h : bindIn r s with
+     | none => simp
+     | some b => cases b <;> simp)
+
+/-- non-vacuity of `accept_iff`: an empty sequence literal is accepted where `Sequence<int>` is declared, a
+`Sequence<float>` is not -/
+example : accepts .letDecl (.native "Sequence" [.int]) (.native "Sequence" [.unknown]) = true ∧
+    accepts .letDecl (.native "Sequence" [.int]) (.native "Sequence" [.float]) = false := by decide
+
+/-- the bottom type (errors, elements of empty containers) is assignable to every type, binding nothing -/
+theorem bottom_into_anything (r : Ty) : bindIn r .unknown = some [] := by
+  cases r <;> simp [bindIn]
+
+/-- identical (written) types are assignable -/
+theorem identical_accepted (ar : String → Nat) (r : Ty) (hd : declarable r = true) (hr : wfTy ar r = true) :
+    bindIn r r = some [] :=
+  (bindIn_nil_iff ar r r hd hr hr).mpr (sub_refl r hd)
 
 /-- a call binds only when the number of arguments lies in the window [required, all parameters] -/
 theorem specBind_arity (f : FuncSpec) (args : List Ty) (b : Bnd) (h : specBind f args = some b) :
@@ -14,9 +51,35 @@ theorem specBind_arity (f : FuncSpec) (args : List Ty) (b : Bnd) (h : specBind f
   · cases h
   · rename_i hc; simp only [Bool.or_eq_true, decide_eq_true_eq, not_or, Nat.not_lt] at hc; exact hc
 
-/-- function types are assignable to function types only at exactly the same arity -/
+/-- function types are assignable to function types only at exactly the same arity (whatever is bound) -/
 theorem callable_exact_arity (ps ps' : List Ty) (r r' : Ty) (b : Bnd)
     (h : bindIn (.callable ps r) (.callable ps' r') = some b) : ps.length = ps'.length :=
   bindIn_callable_callable ps ps' r r' b h
+
+/-- a call through a function-typed value type-checks only with exactly as many arguments as the type has
+parameters, and then has the declared return type -/
+theorem call_callable_exact (ps : List Ty) (r : Ty) (args : List Ty) (t : Ty)
+    (h : typeOfCall (.callable ps r) args = .ok t) : args.length = ps.length ∧ t = r := by
+  simp only [typeOfCall] at h
+  split at h
+  · cases h
+  · rename_i hl
+    split at h
+    · cases h
+    · cases h; exact ⟨by simpa using hl, rfl⟩
+
+/-- a call through a variable holding a function respects the function's arity window -/
+theorem call_func_window (g : Option (List String)) (ps : List Ty) (n : Nat) (r : Ty) (args : List Ty) (t : Ty)
+    (h : typeOfCall (.func g ps n r) args = .ok t) : n ≤ args.length ∧ args.length ≤ ps.length := by
+  simp only [typeOfCall] at h
+  split at h
+  · cases h
+  · rename_i hc; simp only [Bool.or_eq_true, decide_eq_true_eq, not_or, Nat.not_lt] at hc; exact hc
+
+/-- the witness of the repaired defect, on the model: `f("a")` for `f: (int)->(int)` is an argument type error,
+`f(1, 2)` an arity error -/
+example : typeOfCall (.callable [.int] .int) [.str] = .error .invalidArgumentType ∧
+    typeOfCall (.callable [.int] .int) [.int, .int] = .error .callableBindingFailed ∧
+    typeOfCall (.callable [.int] .int) [.int] = .ok .int := ⟨rfl, rfl, rfl⟩
 
 end XrayModel.C04
